@@ -706,7 +706,12 @@ func (ctx Ctx) integerConversion(s ast.Node, x ast.Expr, width int) coq.Expr {
 }
 
 func (ctx Ctx) copyExpr(n ast.Node, dst ast.Expr, src ast.Expr) coq.Expr {
-	e := sliceElem(ctx.typeOf(dst))
+	dstTy, ok := ctx.typeOf(dst).(*types.Slice)
+	if !ok {
+		ctx.unsupported(n, "copy to non-slice type %v", ctx.typeOf(dst))
+		return nil
+	}
+	e := dstTy.Elem()
 	return coq.NewCallExpr(coq.GallinaIdent("SliceCopy"),
 		ctx.coqTypeOfType(n, e),
 		ctx.expr(dst), ctx.expr(src))
@@ -991,6 +996,10 @@ func (ctx Ctx) sliceExpr(e *ast.SliceExpr) coq.Expr {
 	}
 	if e.Max != nil {
 		ctx.unsupported(e, "setting the max capacity in a slice expression is not supported")
+		return nil
+	}
+	if _, ok := ctx.typeOf(e.X).(*types.Slice); !ok {
+		ctx.unsupported(e, "slice expression on non-slice type %v", ctx.typeOf(e.X))
 		return nil
 	}
 	x := ctx.expr(e.X)
